@@ -302,4 +302,51 @@ def refreshArray (flts : List Flt) (fetches : List Fetch) (due : List Bool) : Li
     (if d && flt.enabled then refreshOne flt f else flt) :: refreshArray fs ffs ds
   | fs, _, _ => fs
 
+/-! ### One call of `tryRefreshFilters(block, allow, force)` over both arrays,
+including the engine's view (`refreshFiltersIntl`). -/
+
+structure LState where
+  flt : Flt
+  allow : Bool
+  /-- the content the filtering engine was last built from (`none`: not loaded) -/
+  inForce : Option Bytes
+  deriving DecidableEq, Repr
+
+structure Req where
+  block : Bool
+  allow : Bool
+  force : Bool
+  deriving DecidableEq, Repr
+
+/-- `listsToUpdate`: the list is in a selected array, enabled, and due or forced. -/
+def attempted (rq : Req) (l : LState) (due : Bool) : Bool :=
+  (if l.allow then rq.allow else rq.block) && l.flt.enabled && (rq.force || due)
+
+/-- Phase 1 (`update` on every attempted list): new metadata/file, and per
+list (attempted, failed, updated). -/
+def phase1 (rq : Req) : List LState → List (Bool × Fetch) → List (LState × Bool × Bool × Bool)
+  | l :: ls, (due, f) :: ins =>
+    (if attempted rq l due then
+       ({ l with flt := refreshOne l.flt f }, true, fetchFails f, (updateIntl l.flt.checksum f).isSome)
+     else (l, false, false, false)) :: phase1 rq ls ins
+  | ls, _ => ls.map fun l => (l, false, false, false)
+
+/-- `refreshFiltersArray`'s fourth result for one array: some list was tried and all failed. -/
+def netErr (allow : Bool) (rs : List (LState × Bool × Bool × Bool)) : Bool :=
+  let mine := rs.filter fun r => r.1.allow == allow && r.2.1
+  !mine.isEmpty && mine.all fun r => r.2.2.1
+
+def updCount (allow : Bool) (rs : List (LState × Bool × Bool × Bool)) : Nat :=
+  if netErr allow rs then 0 else (rs.filter fun r => r.1.allow == allow && r.2.2.2).length
+
+/-- The whole refresh.  The engine is rebuilt from the files (`EnableFilters`)
+only if no array failed completely and something was updated. -/
+def refreshStep (rq : Req) (ls : List LState) (ins : List (Bool × Fetch)) : List LState :=
+  let rs := phase1 rq ls ins
+  let isNetErr := (rq.block && netErr false rs) || (rq.allow && netErr true rs)
+  let updNum := (if rq.block then updCount false rs else 0) + (if rq.allow then updCount true rs else 0)
+  let reload := !isNetErr && updNum != 0
+  rs.map fun r =>
+    if reload then { r.1 with inForce := if r.1.flt.enabled then r.1.flt.file else none } else r.1
+
 end AGH.C15
